@@ -26,7 +26,7 @@ def arc_points(rng):
 
 class C17(Property):
     id = "C17"
-    lean_module = "RosuModel.Props.C17Arc"   # imports Props/C17Ends.lean and Props/C17.lean; all in namespace Rosu.C17
+    lean_module = "RosuModel.Props.C17ArcEnd"   # imports Props/C17Arc.lean, Props/C17Ends.lean and Props/C17.lean; all in namespace Rosu.C17
     namespace = "Rosu.C17"
     design_ref = "5.17"
     level_text = (
@@ -47,7 +47,10 @@ class C17(Property):
         "catmull_points_on_spline + catmullRom_endpoints (Rat, ring), arc_points_on_circle (every vertex v of an accepted arc has |v-centre|^2 = radius^2, squared form), "
         "arc_first_vertex / arc_last_vertex (first vertex at angle theta_start, last at theta_start + direction*theta_range: 0/d=0, d/d=1), circumcentre_equidistant + "
         "arc_radius_sq + arc_circle_through_controls (the circle is the one through the three control points), arc_first_point (first vertex = first control point), "
-        "segment_starts_at_first (all four kinds, >= 2 control points, either route of a perfect curve, also after the osu!-mode Catmull simplification). "
+        "segment_starts_at_first (all four kinds, >= 2 control points, either route of a perfect curve, also after the osu!-mode Catmull simplification); with PeriodLaws "
+        "(cos/sin 2pi-periodic, real instance) arc_last_point (the last vertex of an accepted arc is the third control point, whatever number of turns the angle loop adds: "
+        "thetaLoop_periodic, arc_last_angle) and segment_ends_at_last_all (all four kinds, before length adjustment); pos_eq_self (in exact arithmetic the `==` premise of "
+        "joint_vertex_once holds for an identical joint vertex). "
         "libm sin/cos/atan2/acos and IEEE sqrt are NOT proved to satisfy TrigLaws/PolarLaws/SqrtLaws (they cannot, exactly), nor f32/f64 ExactArith. "
         "The tolerance bounds themselves (Hausdorff distance of the adaptive Bezier flattening with its smoothing step, arc sagitta, "
         "Catmull chord error) are NOT proved (bezier_within_tolerance_statement is only stated); they are tested: the real code's path is "
@@ -65,13 +68,16 @@ class C17(Property):
                          # Props/C17Arc.lean
                          "arc_shape", "arcProps_shape", "arcAt_on_circle", "arc_points_on_circle", "arc_first_vertex", "arc_last_vertex",
                          "circumcentre_equidistant", "arc_radius_sq", "arc_circle_through_controls", "arc_first_point",
-                         "segment_starts_at_first", "toy_arc_accepted"]
+                         "segment_starts_at_first", "toy_arc_accepted",
+                         # Props/C17ArcEnd.lean
+                         "arcProps_end_shape", "thetaLoop_periodic", "arc_last_angle", "arc_last_point",
+                         "segment_ends_at_last_all", "pos_eq_self"]
     partial_theorems = {
         "bezier_within_tolerance_statement": "NOT proved (stated as a def): Hausdorff bound of adaptive Bezier flattening + final smoothing; evidence = oracle with bound 0.5 (2 x BEZIER_TOLERANCE) + float slack, both directions",
         "arc_sagitta_bound": "not proved (real-analysis bound r(1-cos(d/2)) <= tol); oracle: circle within 0.1 + slack of the path",
-        "arc_points_on_circle / arc_first_vertex / arc_last_vertex / arc_circle_through_controls / arc_first_point": "proved in exact arithmetic only, under explicit hypotheses (ExactArith; TrigLaws cos^2+sin^2=1; SqrtLaws; PolarLaws for arc_first_point) that are shown satisfiable on Rat (rational unit-circle points) and on the reals; libm's sin/cos/atan2 and IEEE sqrt/f32/f64 are NOT proved to satisfy them - the float-level statement (vertices on the circle within float slack) is tested by the oracle; that the LAST vertex is the third control point (needs 2pi-periodicity and the angle-loop arithmetic) is not proved (tested)",
+        "arc_points_on_circle / arc_first_vertex / arc_last_vertex / arc_circle_through_controls / arc_first_point / arc_last_point": "proved in exact arithmetic only, under explicit hypotheses (ExactArith; TrigLaws cos^2+sin^2=1; SqrtLaws; PolarLaws for arc_first_point; additionally PeriodLaws for arc_last_point) that are shown satisfiable on Rat (ExactArith, TrigLaws: rational unit-circle points) and all together on the reals; libm's sin/cos/atan2 and IEEE sqrt/f32/f64 are NOT proved to satisfy them - the float-level statement (vertices on the circle, first/last vertex at the control points, within float slack) is tested by the oracle",
         "catmull chord error": "not proved; oracle bound max|B''|/(8*50^2) per span (+6 px in osu! mode, the simplification threshold)",
-        "segment_starts_at_first": "Bezier/B-spline/linear/refused-arc: proved structurally for the whole segment through the adaptive subdivision (bezier_first_point), every arithmetic; Catmull and accepted arcs: exact arithmetic only (ExactArith, PolarLaws) - in f32 the cubic at t=0 is 0.5*(2*x) (exact unless 2*x overflows) and the arc start is centre + r*cos(atan2(..)) (rounded): tested (path[0] = first control point within slack)",
+        "segment_starts_at_first / segment_ends_at_last_all": "Bezier/B-spline/linear/refused-arc: proved structurally for the whole segment through the adaptive subdivision (bezier_first_point), every arithmetic; Catmull and accepted arcs: exact arithmetic only (ExactArith, PolarLaws) - in f32 the cubic at t=0 is 0.5*(2*x) (exact unless 2*x overflows) and the arc start is centre + r*cos(atan2(..)) (rounded): tested (path[0] = first control point within slack)",
         "catmull_points_on_spline": "exact rational arithmetic only (Scalar instance on core Rat, ring); in f32 the polynomial is evaluated with rounding - covered by the bit-exact correspondence and the oracle's independent f64 evaluation",
         "thetaLoop_fuel": "the hypothesis (theta_end + 2pi >= theta_start) is a property of atan2 (range [-pi, pi]), not proved of libm; the driver reports fuel-exhausted distinctly and never did",
     }
